@@ -207,6 +207,162 @@ theorem kinds_separated (c e p c2 s2 e2 p2 : Bytes) :
     List.cons_append, List.nil_append] at h
   exact absurd (List.cons.inj h).1 (by decide)
 
+/-! ### the context strings as bytes
+
+`String.toUTF8` / `ByteArray.toList` do not reduce by `decide`; go through `String.ofList`. -/
+
+theorem byteArray_toList_loop (bs : ByteArray) (i : Nat) (r : List UInt8) :
+    ByteArray.toList.loop bs i r = r.reverse ++ bs.data.toList.drop i := by
+  fun_induction ByteArray.toList.loop bs i r with
+  | case1 i r h ih =>
+    rw [ih]
+    have h' : i < bs.data.toList.length := by
+      rw [Array.length_toList]; exact h
+    rw [List.drop_eq_getElem_cons h']
+    have hg : bs.get! i = bs.data.toList[i] := by
+      cases bs with
+      | mk d =>
+        show d[i]! = d.toList[i]
+        rw [getElem!_pos d i h, Array.getElem_toList]
+    rw [hg, List.reverse_cons, List.append_assoc]
+    rfl
+  | case2 i r h =>
+    have : bs.data.toList.length ≤ i := by
+      rw [Array.length_toList]; exact Nat.le_of_not_lt h
+    rw [List.drop_eq_nil_of_le this, List.append_nil]
+
+theorem byteArray_toList (bs : ByteArray) : bs.toList = bs.data.toList := by
+  rw [ByteArray.toList, byteArray_toList_loop]; rfl
+
+theorem utf8_ofList (l : List Char) :
+    utf8 (String.ofList l) = l.flatMap String.utf8EncodeChar := by
+  rw [utf8, String.toUTF8, byteArray_toList, String.toByteArray_ofList, List.utf8Encode,
+    List.toList_data_toByteArray]
+
+theorem ctxSignature1_bytes : ctxSignature1 = [83, 105, 103, 110, 97, 116, 117, 114, 101, 49] := by
+  show utf8 "Signature1" = _
+  rw [← String.ofList_toList (s := "Signature1"), utf8_ofList]
+  decide
+theorem encTstr_ctxSignature1 : encTstr ctxSignature1 = 106 :: ctxSignature1 := by
+  rw [ctxSignature1_bytes]; decide
+
+theorem ctxSignature_bytes : ctxSignature = [83, 105, 103, 110, 97, 116, 117, 114, 101] := by
+  show utf8 "Signature" = _
+  rw [← String.ofList_toList (s := "Signature"), utf8_ofList]
+  decide
+theorem encTstr_ctxSignature : encTstr ctxSignature = 105 :: ctxSignature := by
+  rw [ctxSignature_bytes]; decide
+
+theorem ctxCounterSignature_bytes : ctxCounterSignature = [67, 111, 117, 110, 116, 101, 114, 83, 105, 103, 110, 97, 116, 117, 114, 101] := by
+  show utf8 "CounterSignature" = _
+  rw [← String.ofList_toList (s := "CounterSignature"), utf8_ofList]
+  decide
+theorem encTstr_ctxCounterSignature : encTstr ctxCounterSignature = 112 :: ctxCounterSignature := by
+  rw [ctxCounterSignature_bytes]; decide
+
+theorem ctxCounterSignature0_bytes : ctxCounterSignature0 = [67, 111, 117, 110, 116, 101, 114, 83, 105, 103, 110, 97, 116, 117, 114, 101, 48] := by
+  show utf8 "CounterSignature0" = _
+  rw [← String.ofList_toList (s := "CounterSignature0"), utf8_ofList]
+  decide
+theorem encTstr_ctxCounterSignature0 : encTstr ctxCounterSignature0 = 113 :: ctxCounterSignature0 := by
+  rw [ctxCounterSignature0_bytes]; decide
+
+theorem ctxCounterSignatureV2_bytes : ctxCounterSignatureV2 = [67, 111, 117, 110, 116, 101, 114, 83, 105, 103, 110, 97, 116, 117, 114, 101, 86, 50] := by
+  show utf8 "CounterSignatureV2" = _
+  rw [← String.ofList_toList (s := "CounterSignatureV2"), utf8_ofList]
+  decide
+theorem encTstr_ctxCounterSignatureV2 : encTstr ctxCounterSignatureV2 = 114 :: ctxCounterSignatureV2 := by
+  rw [ctxCounterSignatureV2_bytes]; decide
+
+theorem ctxCounterSignature0V2_bytes : ctxCounterSignature0V2 = [67, 111, 117, 110, 116, 101, 114, 83, 105, 103, 110, 97, 116, 117, 114, 101, 48, 86, 50] := by
+  show utf8 "CounterSignature0V2" = _
+  rw [← String.ofList_toList (s := "CounterSignature0V2"), utf8_ofList]
+  decide
+theorem encTstr_ctxCounterSignature0V2 : encTstr ctxCounterSignature0V2 = 115 :: ctxCounterSignature0V2 := by
+  rw [ctxCounterSignature0V2_bytes]; decide
+
+
+/-! ### converse of `detBstr_spec`, idempotence -/
+
+theorem parseHead_major {b0 : UInt8} {rest : Bytes} {m : Nat} {w : HW} {n : Nat} {r : Bytes}
+    (h : parseHead (b0 :: rest) = some (m, w, n, r)) : b0.toNat / 32 = m := by
+  simp only [parseHead] at h
+  repeat' split at h
+  all_goals first
+    | (simp only [Option.some.injEq, Prod.mk.injEq] at h; exact h.1)
+    | simp at h
+
+theorem first_major {m : Nat} {hw : HW} {n : Nat} {tl : Bytes} {b0 : UInt8} {rest : Bytes}
+    (hm : m < 8) (hf : hw.fits n = true) (h : b0 :: rest = headBytes m hw n ++ tl) :
+    b0.toNat / 32 = m := by
+  have := parseHead_headBytes m n hw tl hm hf
+  rw [← h] at this
+  exact parseHead_major this
+
+/-- whatever `deterministicBinaryString` accepts is a definite-length byte string with some head
+    width, and the result is its shortest-head encoding -/
+theorem detBstr_ok_inv (raw out : Bytes) (h : detBstr raw = .ok out) :
+    ∃ c, IsBstrEncoding raw c ∧ c.length < 18446744073709551616 ∧ out = detEnc (.bstr c) := by
+  cases raw with
+  | nil => simp [detBstr] at h
+  | cons b0 rest =>
+    have h0 := h
+    simp only [detBstr] at h
+    split at h
+    · simp at h
+    · rename_i hm
+      split at h
+      · simp at h
+      · rename_i w hp
+        obtain ⟨hb, hwf, -⟩ := parseTop_sound hp
+        have hm2 : b0.toNat / 32 = 2 := by simpa using hm
+        cases w with
+        | bstr hw c =>
+          simp only [Wire.wf] at hwf
+          simp only [Wire.bytes] at hb
+          have hc : IsBstrEncoding (b0 :: rest) c := ⟨hw, hwf, hb⟩
+          have hl : c.length < 18446744073709551616 := by
+            cases hw <;> simp only [HW.fits, decide_eq_true_eq] at hwf <;> omega
+          refine ⟨c, hc, hl, ?_⟩
+          rw [detBstr_spec _ _ hc hl] at h0
+          exact (Out.ok.inj h0).symm
+        | uint hw n =>
+          simp only [Wire.wf] at hwf
+          have := first_major (tl := []) (by omega : 0 < 8) hwf (by simpa [Wire.bytes] using hb)
+          omega
+        | nint hw n =>
+          simp only [Wire.wf] at hwf
+          have := first_major (tl := []) (by omega : 1 < 8) hwf (by simpa [Wire.bytes] using hb)
+          omega
+        | tstr hw c =>
+          simp only [Wire.wf] at hwf
+          have := first_major (by omega : 3 < 8) hwf (by simpa [Wire.bytes] using hb)
+          omega
+        | arr hw xs =>
+          simp only [Wire.wf, Bool.and_eq_true] at hwf
+          have := first_major (by omega : 4 < 8) hwf.1 (by simpa [Wire.bytes] using hb)
+          omega
+        | map hw xs =>
+          simp only [Wire.wf, Bool.and_eq_true] at hwf
+          have := first_major (by omega : 5 < 8) hwf.1 (by simpa [Wire.bytes] using hb)
+          omega
+        | tag hw t x =>
+          simp only [Wire.wf, Bool.and_eq_true] at hwf
+          have := first_major (by omega : 6 < 8) hwf.1 (by simpa [Wire.bytes] using hb)
+          omega
+        | prim hw n =>
+          have := first_major (tl := []) (by omega : 7 < 8) (Wire.wf_prim hwf)
+            (by simpa [Wire.bytes] using hb)
+          omega
+
+theorem isBstrEncoding_detEnc (c : Bytes) (h : c.length < 18446744073709551616) :
+    IsBstrEncoding (detEnc (.bstr c)) c :=
+  ⟨HW.shortest c.length, shortest_fits h, by simp [detEnc, detHead]⟩
+
+theorem detBstr_idem (raw out : Bytes) (h : detBstr raw = .ok out) : detBstr out = .ok out := by
+  obtain ⟨c, -, hl, rfl⟩ := detBstr_ok_inv raw out h
+  exact detBstr_spec _ _ (isBstrEncoding_detEnc c hl) hl
+
 end C02
 
 namespace C10
@@ -297,4 +453,239 @@ theorem ctbs_eq_rfc_sign (abbr : Bool) (m : SignMsg) (signProtected : Bytes) (ex
     detBstr_spec _ _ hs hslen, optBytesEnc, detEnc_countersign_none, encBstr_eq_detEnc,
     ctxCounterSignature0, ctxCounterSignature, utf8]
 
+/-! ### separation -/
+
+/-- the context string `countersignToBeSigned` picks -/
+def ctxOf (other : Option Bytes) (abbr : Bool) : Bytes :=
+  match other, abbr with
+  | none, true => ctxCounterSignature0
+  | none, false => ctxCounterSignature
+  | some _, true => ctxCounterSignature0V2
+  | some _, false => ctxCounterSignatureV2
+
+/-- the bytes `countersignToBeSigned` assembles from the processed fields -/
+def ctbsBytes (abbr : Bool) (other : Option Bytes) (bp sp ext : Bytes) (payload : Option Bytes) :
+    Bytes :=
+  match other with
+  | none =>
+    encHead 4 5 ++ (encTstr (ctxOf other abbr) ++ (bp ++ (sp ++ (encBstr ext ++ optBytesEnc payload))))
+  | some sigEnc =>
+    encHead 4 6 ++ ((encTstr (ctxOf other abbr) ++ (bp ++ (sp ++ (encBstr ext ++ optBytesEnc payload))))
+      ++ (encHead 4 1 ++ sigEnc))
+
+/-- if `countersignToBeSigned` succeeds for one value of `abbreviated`, then it succeeds for both,
+    and the two results differ only in the context string -/
+theorem ctbs_ok_shape {abbr : Bool} {parent : Parent} {sp : Bytes} {ext : Option Bytes} {t : Bytes}
+    (h : countersignToBeSigned abbr parent sp ext = .ok t) :
+    ∃ (other payload : Option Bytes) (bp sp' : Bytes),
+      ∀ abbr', countersignToBeSigned abbr' parent sp ext =
+        .ok (ctbsBytes abbr' other bp sp' (ext.getD []) payload) := by
+  simp only [countersignToBeSigned] at h ⊢
+  split at h
+  · rename_i bodyProtected payload other heq
+    cases hb : detBstr bodyProtected <;> simp only [hb, Out.bind_ok, Out.bind_err, Out.bind_panic,
+      Out.bind_unmodelled, reduceCtorEq] at h
+    rename_i bp
+    cases hs : detBstr sp <;> simp only [hs, Out.bind_ok, Out.bind_err, Out.bind_panic,
+      Out.bind_unmodelled, reduceCtorEq] at h
+    rename_i sp'
+    refine ⟨other, payload, bp, sp', fun abbr' => ?_⟩
+    cases other <;> cases abbr' <;> rfl
+  all_goals simp at h
+
+theorem ctbsBytes_full_ne_abbrev (other : Option Bytes) (bp sp ext : Bytes) (payload : Option Bytes) :
+    ctbsBytes false other bp sp ext payload ≠ ctbsBytes true other bp sp ext payload := by
+  intro h
+  cases other with
+  | none =>
+    simp only [ctbsBytes, ctxOf, encHead_4_5, encTstr_ctxCounterSignature, encTstr_ctxCounterSignature0,
+      List.cons_append, List.nil_append] at h
+    exact absurd (List.cons.inj (List.cons.inj h).2).1 (by decide)
+  | some o =>
+    simp only [ctbsBytes, ctxOf, encHead_4_6, encTstr_ctxCounterSignatureV2,
+      encTstr_ctxCounterSignature0V2, List.cons_append, List.nil_append] at h
+    exact absurd (List.cons.inj (List.cons.inj h).2).1 (by decide)
+
+/-- for the same parent and arguments the full and the abbreviated ToBeSigned differ -/
+theorem ctbs_full_ne_abbrev (parent : Parent) (sp : Bytes) (ext : Option Bytes) (t t' : Bytes)
+    (h : countersignToBeSigned false parent sp ext = .ok t)
+    (h' : countersignToBeSigned true parent sp ext = .ok t') : t ≠ t' := by
+  obtain ⟨other, payload, bp, sp', hall⟩ := ctbs_ok_shape h
+  rw [hall false] at h
+  rw [hall true] at h'
+  rw [← Out.ok.inj h, ← Out.ok.inj h']
+  exact ctbsBytes_full_ne_abbrev _ _ _ _ _
+
+theorem ctbsBytes_ne_sig1 (abbr : Bool) (other : Option Bytes) (bp sp ext : Bytes)
+    (payload : Option Bytes) (c e p : Bytes) :
+    ctbsBytes abbr other bp sp ext payload ≠ detEnc (sigStructure1 c e p) := by
+  intro h
+  cases other <;>
+    simp only [ctbsBytes, detEnc_sigStructure1, encHead_4_4, encHead_4_5, encHead_4_6,
+      List.cons_append, List.nil_append] at h <;>
+    exact absurd (List.cons.inj h).1 (by decide)
+
+theorem ctbsBytes_ne_sig (abbr : Bool) (other : Option Bytes) (bp sp ext : Bytes)
+    (payload : Option Bytes) (c s e p : Bytes) :
+    ctbsBytes abbr other bp sp ext payload ≠ detEnc (sigStructure c s e p) := by
+  intro h
+  cases other with
+  | some o =>
+    simp only [ctbsBytes, detEnc_sigStructure, encHead_4_5, encHead_4_6,
+      List.cons_append, List.nil_append] at h
+    exact absurd (List.cons.inj h).1 (by decide)
+  | none =>
+    cases abbr <;>
+      simp only [ctbsBytes, ctxOf, detEnc_sigStructure, encHead_4_5, encTstr_ctxCounterSignature,
+        encTstr_ctxCounterSignature0, encTstr_ctxSignature, List.cons_append, List.nil_append] at h <;>
+      exact absurd (List.cons.inj (List.cons.inj h).2).1 (by decide)
+
+/-- a countersignature ToBeSigned is never a COSE_Sign1 ToBeSigned nor a COSE_Sign signer's -/
+theorem ctbs_ne_message_tbs (abbr : Bool) (parent : Parent) (sp : Bytes) (ext : Option Bytes)
+    (t : Bytes) (h : countersignToBeSigned abbr parent sp ext = .ok t) :
+    (∀ c e p, t ≠ detEnc (sigStructure1 c e p)) ∧
+    (∀ c s e p, t ≠ detEnc (sigStructure c s e p)) := by
+  obtain ⟨other, payload, bp, sp', hall⟩ := ctbs_ok_shape h
+  rw [hall abbr] at h
+  rw [← Out.ok.inj h]
+  exact ⟨fun c e p => ctbsBytes_ne_sig1 _ _ _ _ _ _ c e p, fun c s e p => ctbsBytes_ne_sig _ _ _ _ _ _ c s e p⟩
+
+/-! ### the same at the level of the RFC structures -/
+
+/-- a Countersign_structure determines every one of its fields: the context, the parent's protected
+    bytes, the countersigner's protected bytes, the external data, the payload position and
+    `other_fields` -/
+theorem countersign_binding (ctx ctx' : String) (c s e p c' s' e' p' : Bytes) (o o' : Option Bytes)
+    (hx : (utf8 ctx).length < 2^64) (hx' : (utf8 ctx').length < 2^64)
+    (hc : c.length < 2^64) (hs : s.length < 2^64) (he : e.length < 2^64) (hp : p.length < 2^64)
+    (hc' : c'.length < 2^64) (hs' : s'.length < 2^64) (he' : e'.length < 2^64)
+    (hp' : p'.length < 2^64)
+    (ho : ∀ x, o = some x → x.length < 2^64) (ho' : ∀ x, o' = some x → x.length < 2^64)
+    (h : detEnc (countersignStructure ctx c s e p o) = detEnc (countersignStructure ctx' c' s' e' p' o')) :
+    utf8 ctx = utf8 ctx' ∧ c = c' ∧ s = s' ∧ e = e' ∧ p = p' ∧ o = o' := by
+  cases o with
+  | none =>
+    cases o' with
+    | some x' =>
+      simp only [detEnc_countersign_none, detEnc_countersign_some, encHead_4_5, encHead_4_6,
+        List.cons_append, List.nil_append] at h
+      exact absurd (List.cons.inj h).1 (by decide)
+    | none =>
+      simp only [detEnc_countersign_none, encBstr_eq_detEnc, encTstr_eq_detEnc] at h
+      have h0 := List.append_cancel_left h
+      obtain ⟨hctx, h1⟩ := detEnc_tstr_inj _ _ hx hx' _ _ h0
+      obtain ⟨rfl, h2⟩ := detEnc_bstr_inj c c' hc hc' _ _ h1
+      obtain ⟨rfl, h3⟩ := detEnc_bstr_inj s s' hs hs' _ _ h2
+      obtain ⟨rfl, h4⟩ := detEnc_bstr_inj e e' he he' _ _ h3
+      have h5 : detEnc (.bstr p) ++ [] = detEnc (.bstr p') ++ [] := by simpa using h4
+      obtain ⟨rfl, -⟩ := detEnc_bstr_inj p p' hp hp' _ _ h5
+      exact ⟨hctx, rfl, rfl, rfl, rfl, rfl⟩
+  | some x =>
+    cases o' with
+    | none =>
+      simp only [detEnc_countersign_none, detEnc_countersign_some, encHead_4_5, encHead_4_6,
+        List.cons_append, List.nil_append] at h
+      exact absurd (List.cons.inj h).1 (by decide)
+    | some x' =>
+      simp only [detEnc_countersign_some, encBstr_eq_detEnc, encTstr_eq_detEnc,
+        List.append_assoc] at h
+      have h0 := List.append_cancel_left h
+      obtain ⟨hctx, h1⟩ := detEnc_tstr_inj _ _ hx hx' _ _ h0
+      obtain ⟨rfl, h2⟩ := detEnc_bstr_inj c c' hc hc' _ _ h1
+      obtain ⟨rfl, h3⟩ := detEnc_bstr_inj s s' hs hs' _ _ h2
+      obtain ⟨rfl, h4⟩ := detEnc_bstr_inj e e' he he' _ _ h3
+      obtain ⟨rfl, h5⟩ := detEnc_bstr_inj p p' hp hp' _ _ h4
+      have h6 := List.append_cancel_left h5
+      have h7 : detEnc (.bstr x) ++ [] = detEnc (.bstr x') ++ [] := by simpa using h6
+      obtain ⟨rfl, -⟩ := detEnc_bstr_inj x x' (ho x rfl) (ho' x' rfl) _ _ h7
+      exact ⟨hctx, rfl, rfl, rfl, rfl, rfl⟩
+
+/-- no Countersign_structure encodes as a COSE_Sign1 Sig_structure, whatever the context string -/
+theorem countersign_ne_sig1 (ctx : String) (c s e p : Bytes) (o : Option Bytes) (c1 e1 p1 : Bytes) :
+    detEnc (countersignStructure ctx c s e p o) ≠ detEnc (sigStructure1 c1 e1 p1) := by
+  intro h
+  cases o <;>
+    simp only [detEnc_countersign_none, detEnc_countersign_some, detEnc_sigStructure1, encHead_4_4,
+      encHead_4_5, encHead_4_6, List.cons_append, List.nil_append] at h <;>
+    exact absurd (List.cons.inj h).1 (by decide)
+
+/-- a Countersign_structure whose context is not "Signature" never encodes as a COSE_Sign
+    Sig_structure -/
+theorem countersign_ne_sig (ctx : String) (c s e p : Bytes) (o : Option Bytes) (c2 s2 e2 p2 : Bytes)
+    (hx : (utf8 ctx).length < 2^64) (hne : utf8 ctx ≠ utf8 "Signature") :
+    detEnc (countersignStructure ctx c s e p o) ≠ detEnc (sigStructure c2 s2 e2 p2) := by
+  intro h
+  cases o with
+  | some x =>
+    simp only [detEnc_countersign_some, detEnc_sigStructure, encHead_4_5, encHead_4_6,
+      List.cons_append, List.nil_append] at h
+    exact absurd (List.cons.inj h).1 (by decide)
+  | none =>
+    simp only [detEnc_countersign_none, detEnc_sigStructure, encTstr_eq_detEnc] at h
+    have h0 := List.append_cancel_left h
+    have hl : ctxSignature.length < 2^64 := by rw [ctxSignature_bytes]; decide
+    exact hne (detEnc_tstr_inj _ _ hx hl _ _ h0).1
+
+/-- the four context strings of RFC 9338 are pairwise distinct and distinct from "Signature" /
+    "Signature1" (as UTF-8 bytes), and short -/
+theorem contexts_distinct :
+    [ctxSignature1, ctxSignature, ctxCounterSignature, ctxCounterSignature0, ctxCounterSignatureV2,
+      ctxCounterSignature0V2].Pairwise (· ≠ ·) := by
+  rw [ctxSignature1_bytes, ctxSignature_bytes, ctxCounterSignature_bytes, ctxCounterSignature0_bytes,
+    ctxCounterSignatureV2_bytes, ctxCounterSignature0V2_bytes]
+  decide
+
 end C10
+
+/-! ### the hypotheses are satisfiable -/
+namespace TbsExamples
+
+-- a protected bucket `{}` wrapped with a non-shortest (one-byte) length
+example : IsBstrEncoding [0x58, 0x01, 0xa0] [0xa0] := ⟨.w1, by decide, rfl⟩
+example : IsBstrEncoding [0x41, 0xa0] [0xa0] := ⟨.imm, by decide, rfl⟩
+example : IsBstrEncoding [0x5b, 0, 0, 0, 0, 0, 0, 0, 0] [] := ⟨.w8, by decide, rfl⟩
+example : IsBstrEncoding [0x40] [] := ⟨.imm, by decide, rfl⟩
+
+-- direct evaluation of the model (no use of `detBstr_spec`)
+example : detBstr [0x58, 0x01, 0xa0] = .ok [0x41, 0xa0] := by
+  simp [detBstr, parseTop, parseItem, fuelFor, parseHead, encBstr, encHead, HW.shortest, headBytes]
+example : detBstr [0x41, 0xa0] = .ok [0x41, 0xa0] := by
+  simp [detBstr, parseTop, parseItem, fuelFor, parseHead]
+example : detBstr [0x5b, 0, 0, 0, 0, 0, 0, 0, 0] = .ok [0x40] := by
+  simp [detBstr, parseTop, parseItem, fuelFor, parseHead, encBstr, encHead, HW.shortest, headBytes]
+-- and through the theorem
+example : detBstr [0x5a, 0, 0, 0, 1, 0xa0] = .ok [0x41, 0xa0] :=
+  (C02.detBstr_spec _ [0xa0] ⟨.w4, by decide, rfl⟩ (by decide)).trans (by decide)
+example : detBstr [0x59, 0x00, 0x01, 0xa0] = .ok (detEnc (.bstr [0xa0])) :=
+  C02.detBstr_spec _ _ ⟨.w2, by decide, rfl⟩ (by decide)
+
+/-- a decoded message that retained a non-minimal protected bucket -/
+def m1 : Sign1Msg :=
+  { h := { rawP := some [0x58, 0x01, 0xa0] }, payload := some [1, 2, 3], sig := some [9] }
+
+theorem m1_protected : marshalProtected m1.h = .ok [0x58, 0x01, 0xa0] := by
+  simp [marshalProtected, m1, GoVal.modelledPairs, encodeBucket]
+
+example : Sign1.toBeSigned m1 none = .ok (detEnc (sigStructure1 [0xa0] [] [1, 2, 3])) :=
+  C02.tbs1_eq_rfc m1 none [0x58, 0x01, 0xa0] [0xa0] [1, 2, 3] m1_protected ⟨.w1, by decide, rfl⟩
+    (by decide) rfl
+
+example : Signature.toBeSigned { h := { rawP := some [0x58, 0x01, 0xa0] } } [0x40] (some [7]) (some [8]) =
+    .ok (detEnc (sigStructure [] [0xa0] [8] [7])) :=
+  C02.tbsSig_eq_rfc _ _ _ _ [] [0x58, 0x01, 0xa0] [0xa0] [7] ⟨.imm, by decide, rfl⟩ (by decide)
+    (by simp [marshalProtected, GoVal.modelledPairs, encodeBucket])
+    ⟨.w1, by decide, rfl⟩ (by decide) rfl
+
+example : countersignToBeSigned true (.sign1 m1) [0x40] none =
+    .ok (detEnc (countersignStructure "CounterSignature0V2" [0xa0] [] [] [1, 2, 3] (some [9]))) :=
+  C10.ctbs_eq_rfc_sign1 true m1 [0x40] none [0x58, 0x01, 0xa0] [0xa0] [] [1, 2, 3] [9] m1_protected
+    ⟨.w1, by decide, rfl⟩ ⟨.imm, by decide, rfl⟩ (by decide) (by decide) rfl rfl (by decide)
+
+example : countersignToBeSigned false (.signature { h := { rawP := some [0x40] }, sig := some [9] })
+      [0x41, 0xa0] (some [5]) =
+    .ok (detEnc (countersignStructure "CounterSignature" [] [0xa0] [5] [9] none)) :=
+  C10.ctbs_eq_rfc_signature false _ _ _ [0x40] [] [0xa0] [9]
+    (by simp [marshalProtected, GoVal.modelledPairs, encodeBucket])
+    ⟨.imm, by decide, rfl⟩ ⟨.imm, by decide, rfl⟩ (by decide) (by decide) rfl (by decide)
+
+end TbsExamples
